@@ -4,6 +4,7 @@ CONSTANTS
   EnvVars <- TrEnv
   QueryKinds <- TrQueries
   BlockChoices <- NoBlocks
+  Versions <- GateVersions
 INIT TraceInit
 NEXT TraceNext
 POSTCONDITION TraceAccepted
